@@ -227,7 +227,8 @@ static void check_detector(const arr_cmplx& h, const char* pname, double thr, in
         vh::violation("C18/detector/preamble_samples", cfg + ": the returned preamble is not the len stream samples ending at the detection point");
     }
     vh::obs_max("detector_score_dev_from_statistic", double(fabsl(ld(rep.score) - sr[istar])));
-    if (at_true_end && !(rep.score >= 0.9 && rep.score <= 1 + 1e-9)) {
+    //at the true end the normalised statistic itself is >= 0.9995 (noise at least 30 dB below): "near 1" is judged with 3 % of slack
+    if (at_true_end && !(rep.score >= 0.97 && rep.score <= 1 + 1e-9)) {
         vh::violation("C18/detector/score", cfg + vh::fmt(": score %.6f at the true end of the preamble (expected near 1)", rep.score));
     }
     if (!(rep.score > thr * 0.93)) {
@@ -304,7 +305,7 @@ int main(int argc, char** argv) {
             }
             vh::Rng r = vh::rng_for("det", pi * 100000 + off);
             const double thr = r.uni(0.3, 0.9);
-            const double amp = r.uni(-40, 20);
+            const double amp = r.uni(-70, 20);
             const double noise = r.uni(30, 60);
             check_detector(pre[pi].h, pre[pi].name.c_str(), thr, off, amp, noise, true, r);
             if (off % 5 == 0) {
@@ -312,6 +313,6 @@ int main(int argc, char** argv) {
             }
         }
     }
-    vh::sample("PreambleDetector: Zadoff-Chu (16..512) and m-sequences (31..511) embedded at every offset modulo the frame length (straddling frame boundaries), amplitudes over 60 dB, thresholds 0.3..0.9; the first report is compared with a long-double matched-filter statistic");
+    vh::sample("PreambleDetector: Zadoff-Chu (16..512) and m-sequences (31..511) embedded at every offset modulo the frame length (straddling frame boundaries), amplitudes over 90 dB, thresholds 0.3..0.9; the first report is compared with a long-double matched-filter statistic");
     return vh::finish();
 }
